@@ -1,7 +1,688 @@
-//! C40 — not built yet.
-use lv_common::Ctx;
+//! C40 — Shrex peer pools contain only peers that announced the right data.
+//!
+//! The real `PoolTracker` (through the `PoolTrackerSim` hook) runs over an `InMemoryStore` on a
+//! paused current-thread tokio runtime. A generated history of notifications, header arrivals, peer
+//! removals, clock advances and polls is interpreted step by step; the oracle is a set of
+//! constraints derived from the property statement (not an exact replica of the tracker):
+//!
+//!  S  after every step, for every height h: `get_pool(h) = Ok(ps)` implies the store holds the
+//!     header of h and every p in ps announced exactly that header's data hash for h (since its last
+//!     removal) and is not blocked;
+//!  W  after every step, every h <= newest validated - 10 yields `HeightTooOld`;
+//!  B  at every quiescent point: a peer that announced another hash for a height whose pool is
+//!     validated, or announced twice for one height, has appeared in a `BlockPeers` event;
+//!  P  no call panics (engine: any escaping panic is a violation).
+//!
+//! Stated scope: DISTINCT non-empty data hashes per height. Equal hashes at two heights are only
+//! exercised by the separate observation `equal-hash-observation`, which can never fail.
 
-pub fn run(_ctx: &mut Ctx) {
-    eprintln!("C40: check not built yet");
-    std::process::exit(2);
+use std::collections::{BTreeMap, BTreeSet, HashMap};
+use std::sync::{Arc, Mutex, OnceLock};
+use std::task::Poll;
+use std::time::Duration;
+
+use celestia_types::ExtendedHeader;
+use libp2p::PeerId;
+use lumina_node::store::{InMemoryStore, Store};
+use lumina_node::verif::{PoolTrackerSim, VerifGetPoolError, VerifPoolEvent};
+use lv_common::prelude::*;
+use lv_gen::chain::{BlockSpec, ChainSpec, DahKind, TimeBase, build_chain};
+use lv_gen::square::{SquareKind, SquareSpec};
+
+use crate::c39::peer_id;
+
+const MAX_PEERS: u8 = 6;
+const CHAIN_LEN: usize = 36;
+const WINDOW: u64 = 10;
+
+#[derive(Clone, Debug, Serialize, Deserialize)]
+pub enum HashSel {
+    /// the data hash of the chain's header at the notified height
+    Right,
+    /// a hash no header carries
+    Wrong(u8),
+    /// the (right) data hash of another height
+    OfHeight(u8),
+}
+
+#[derive(Clone, Debug, Serialize, Deserialize)]
+pub enum Step {
+    /// notification for height = store head + dh (clamped to >= 0)
+    NotifyNear { p: u8, dh: i8, hash: HashSel },
+    /// notification for an absolute height
+    NotifyAbs { p: u8, h: u8, hash: HashSel },
+    /// append `len` headers directly above the store head
+    InsertNext { len: u8 },
+    /// new head range above a gap of `gap` missing heights
+    InsertJump { gap: u8, len: u8 },
+    /// `len` headers directly below the highest stored range (back-filling)
+    InsertBelowTop { len: u8 },
+    /// arbitrary range (the store may refuse it)
+    InsertAt { from: u8, len: u8 },
+    RemovePeer { p: u8 },
+    Advance { secs: u16 },
+    Settle,
+}
+
+#[derive(Clone, Debug, Serialize, Deserialize)]
+pub struct Case {
+    pub seed: u64,
+    pub n_peers: u8,
+    /// headers 1..=init are in the store before the tracker is constructed
+    pub init: u8,
+    /// poll the tracker to quiescence after every step (otherwise only at `Settle` steps)
+    pub auto_settle: bool,
+    pub steps: Vec<Step>,
+}
+
+fn hash_sel() -> impl Strategy<Value = HashSel> {
+    prop_oneof![
+        6 => Just(HashSel::Right),
+        2 => (0u8..3).prop_map(HashSel::Wrong),
+        1 => (0u8..CHAIN_LEN as u8).prop_map(HashSel::OfHeight),
+    ]
+}
+
+fn step_strategy() -> impl Strategy<Value = Step> {
+    let p = || 0u8..MAX_PEERS;
+    prop_oneof![
+        12 => (p(), -13i8..=3, hash_sel()).prop_map(|(p, dh, hash)| Step::NotifyNear { p, dh, hash }),
+        2 => (p(), 0u8..(CHAIN_LEN as u8 + 4), hash_sel()).prop_map(|(p, h, hash)| Step::NotifyAbs { p, h, hash }),
+        4 => (1u8..4).prop_map(|len| Step::InsertNext { len }),
+        2 => (prop_oneof![1u8..4, 8u8..14], 1u8..3).prop_map(|(gap, len)| Step::InsertJump { gap, len }),
+        1 => (1u8..5).prop_map(|len| Step::InsertBelowTop { len }),
+        1 => (0u8..CHAIN_LEN as u8, 1u8..4).prop_map(|(from, len)| Step::InsertAt { from, len }),
+        1 => p().prop_map(|p| Step::RemovePeer { p }),
+        2 => prop_oneof![3 => 1u16..100, 2 => 110u16..130, 1 => 130u16..400].prop_map(|secs| Step::Advance { secs }),
+        5 => Just(Step::Settle),
+    ]
+}
+
+fn case_strategy(max_steps: usize) -> impl Strategy<Value = Case> {
+    (
+        any::<u64>(),
+        1u8..=MAX_PEERS,
+        prop_oneof![1 => Just(0u8), 3 => 1u8..=14],
+        prop::bool::weighted(0.6),
+        prop::collection::vec(step_strategy(), 5..=max_steps),
+    )
+        .prop_map(|(seed, n_peers, init, auto_settle, steps)| Case { seed, n_peers, init, auto_settle, steps })
+}
+
+pub struct ChainData {
+    pub headers: Vec<ExtendedHeader>,
+    pub hashes: Vec<[u8; 32]>,
+}
+
+fn hash32(h: &ExtendedHeader) -> [u8; 32] {
+    h.header.data_hash.expect("generated headers carry a data hash").as_bytes().try_into().expect("sha256 data hash")
+}
+
+/// A validated single-validator chain of heights 1..=CHAIN_LEN whose blocks all carry a (tiny)
+/// non-empty square; `equal` = Some((a, b)) gives heights a and b the same square.
+fn build_chain_data(sel: u64, equal: Option<(usize, usize)>) -> ChainData {
+    let sq_seed = |i: usize| -> u64 {
+        let i = match equal {
+            Some((a, b)) if i == b => a,
+            _ => i,
+        };
+        (sel << 16) ^ (i as u64 + 1).wrapping_mul(0x9E37_79B9_7F4A_7C15)
+    };
+    let spec = ChainSpec {
+        seed: 0xC40 ^ (sel << 8),
+        chain_id: "private".into(),
+        start_height: 1,
+        app_version: 3,
+        time_base: TimeBase::Fixed(1_700_000_000),
+        set0: vec![(0, 5000)],
+        blocks: (0..CHAIN_LEN)
+            .map(|i| BlockSpec {
+                dt_ms: 6000,
+                votes: vec![],
+                dah: DahKind::Square(SquareSpec {
+                    seed: sq_seed(i),
+                    ods_log2: 0,
+                    kind: SquareKind::Dummy,
+                }),
+                next_set: None,
+            })
+            .collect(),
+    };
+    let chain = build_chain(&spec);
+    let hashes = chain.headers.iter().map(hash32).collect();
+    ChainData {
+        headers: chain.headers,
+        hashes,
+    }
+}
+
+fn chain_for(sel: u64) -> Arc<ChainData> {
+    static CACHE: OnceLock<Mutex<HashMap<u64, Arc<ChainData>>>> = OnceLock::new();
+    let cache = CACHE.get_or_init(|| Mutex::new(HashMap::new()));
+    if let Some(c) = cache.lock().unwrap().get(&sel) {
+        return c.clone();
+    }
+    let c = Arc::new(build_chain_data(sel, None));
+    cache.lock().unwrap().entry(sel).or_insert(c).clone()
+}
+
+struct Sim<'a> {
+    chain: &'a ChainData,
+    ids: Vec<PeerId>,
+    store: Arc<InMemoryStore>,
+    real: PoolTrackerSim,
+    /// heights in the store -> data hash
+    stored: BTreeMap<u64, [u8; 32]>,
+    /// newest validated height as far as the property's observer can tell
+    head: Option<u64>,
+    /// accepted announcements per peer since its last removal: height -> hashes
+    ann: Vec<BTreeMap<u64, Vec<[u8; 32]>>>,
+    /// (peer, height) whose repeated announcement arrived when the pool was already validated, with
+    /// the right hash
+    dup_after_validation: BTreeSet<(usize, u64)>,
+    blocked: BTreeSet<usize>,
+    ever_ok: BTreeSet<u64>,
+    max_h: u64,
+}
+
+impl Sim<'_> {
+    fn idx(&self, p: &PeerId) -> Option<usize> {
+        self.ids.iter().position(|x| x == p)
+    }
+
+    fn threshold(&self) -> Option<u64> {
+        self.head.map(|h| h.saturating_sub(WINDOW))
+    }
+
+    async fn insert(&mut self, from: u64, len: u64, obs: &mut Obs<'_>) {
+        let last = CHAIN_LEN as u64;
+        if from == 0 || from > last || len == 0 {
+            obs.label("insert-out-of-chain");
+            return;
+        }
+        let to = (from + len - 1).min(last);
+        let batch: Vec<ExtendedHeader> = self.chain.headers[(from - 1) as usize..=(to - 1) as usize].to_vec();
+        let old_head = self.stored.keys().next_back().copied();
+        match self.store.insert(batch).await {
+            Ok(()) => {
+                for h in from..=to {
+                    self.stored.insert(h, self.chain.hashes[(h - 1) as usize]);
+                }
+                obs.label("insert-ok");
+                if let Some(oh) = old_head {
+                    if to > oh + WINDOW {
+                        obs.label("store-head-jump-gt-10");
+                    }
+                    if to < oh {
+                        obs.label("insert-below-head");
+                    }
+                }
+            }
+            Err(_) => obs.label("insert-refused-by-store"),
+        }
+    }
+
+    fn hash_for(&self, seed: u64, h: u64, sel: &HashSel) -> [u8; 32] {
+        let wrong = |salt: u8| lv_gen::refs::sha256(&[b"c40-wrong", &seed.to_le_bytes(), &h.to_le_bytes(), &[salt]]);
+        match sel {
+            HashSel::Right => {
+                if h >= 1 && h <= CHAIN_LEN as u64 {
+                    self.chain.hashes[(h - 1) as usize]
+                } else {
+                    wrong(0xff)
+                }
+            }
+            HashSel::Wrong(s) => wrong(*s),
+            HashSel::OfHeight(j) => self.chain.hashes[(*j as usize).min(CHAIN_LEN - 1)],
+        }
+    }
+
+    fn notify(&mut self, step: usize, p: usize, h: u64, hash: [u8; 32], obs: &mut Obs<'_>) -> Result<(), Failure> {
+        if self.blocked.contains(&p) {
+            // a blocked peer is blacklisted by the swarm: its messages no longer arrive
+            obs.label("notify-from-blocked-peer-not-delivered");
+            return Ok(());
+        }
+        let tracked_before = self.real.tracked_heights();
+        let was_ok = self.real.get_pool(h).is_ok();
+        let valid = self.real.notify(self.ids[p], h, hash);
+        if !valid {
+            obs.label("notify-rejected-by-validation");
+            return Ok(());
+        }
+        let accepted = self.threshold().is_some_and(|t| h > t);
+        // harness self-check (diagnostic hook): the model's acceptance rule is the tracker's
+        let had = tracked_before.iter().any(|(x, _)| *x == h);
+        let has = self.real.tracked_heights().iter().any(|(x, _)| *x == h);
+        obs.check(has == (had || accepted), "C40:harness-acceptance-desync", || {
+            format!("step {step}: notification for height {h}: model accepted={accepted} (head {:?}) but tracker pool existed before={had} after={has}", self.head)
+        })?;
+        if !accepted {
+            obs.label(if self.head.is_none() { "notify-ignored-no-head" } else { "notify-ignored-stale" });
+            return Ok(());
+        }
+        let right = self.stored.get(&h).map(|x| *x == hash);
+        obs.label(match (was_ok, right) {
+            (true, Some(true)) => "notify-after-validation-right",
+            (true, _) => "notify-after-validation-wrong",
+            (false, Some(true)) => "notify-header-stored-not-yet-validated",
+            (false, Some(false)) => "notify-wrong-header-stored",
+            (false, None) => "notify-before-header",
+        });
+        let v = self.ann[p].entry(h).or_default();
+        v.push(hash);
+        if v.len() >= 2 {
+            obs.label("announced-twice");
+            if was_ok && right == Some(true) && v.iter().all(|x| *x == hash) {
+                self.dup_after_validation.insert((p, h));
+            }
+        }
+        Ok(())
+    }
+
+    /// poll the tracker until it is pending; collect events
+    async fn settle(&mut self, step: usize, obs: &mut Obs<'_>) -> Result<(), Failure> {
+        let before: Vec<_> = (0..=self.max_h).map(|h| self.real.get_pool(h)).collect();
+        let mut events = Vec::new();
+        let mut spins = 0u32;
+        let real = &mut self.real;
+        let quiesced = std::future::poll_fn(|cx| {
+            loop {
+                spins += 1;
+                if spins > 100_000 {
+                    return Poll::Ready(false);
+                }
+                match real.poll(cx) {
+                    Poll::Ready(Some(ev)) => events.push(ev),
+                    Poll::Ready(None) => {}
+                    Poll::Pending => return Poll::Ready(true),
+                }
+            }
+        })
+        .await;
+        obs.check(quiesced, "C40:poll-does-not-quiesce", || format!("step {step}: PoolTracker::poll kept returning Ready for 100000 polls"))?;
+        let mut newly_blocked = BTreeSet::new();
+        for ev in events {
+            match ev {
+                VerifPoolEvent::BlockPeers(ps) => {
+                    obs.label("event-block-peers");
+                    for p in ps {
+                        if let Some(i) = self.idx(&p) {
+                            newly_blocked.insert(i);
+                        }
+                    }
+                }
+                VerifPoolEvent::AddPeers(_) => obs.label("event-add-peers"),
+                VerifPoolEvent::SchedulePendingRequests => {}
+            }
+        }
+        // classify why they were blocked (before forgetting their announcements)
+        for &i in &newly_blocked {
+            if self.blocked.contains(&i) {
+                continue;
+            }
+            let mut why = "blocked-other(timeout)";
+            for (h, v) in &self.ann[i] {
+                if v.len() >= 2 {
+                    why = "duplicate-announcer-blocked";
+                    break;
+                }
+                if let Some(hh) = self.stored.get(h) {
+                    if v.iter().any(|x| x != hh) {
+                        why = "wrong-hash-announcer-blocked";
+                    }
+                }
+            }
+            obs.label(why);
+        }
+        for i in newly_blocked {
+            self.blocked.insert(i);
+            self.ann[i].clear(); // PoolTracker::poll removes a blocked peer from all pools
+        }
+
+        // newest validated height, as observable: the store head when the tracker first saw a
+        // non-empty store, afterwards the highest height whose pool was ever served
+        if self.head.is_none() {
+            if let Some(h) = self.stored.keys().next_back() {
+                self.head = Some(*h);
+                obs.label("initial-head-learned");
+            }
+        }
+        for h in 0..=self.max_h {
+            let now = self.real.get_pool(h);
+            if now.is_ok() {
+                self.ever_ok.insert(h);
+                if self.head.is_none_or(|x| h > x) {
+                    if self.head.is_some_and(|x| h > x + WINDOW) {
+                        obs.label("validated-head-jump-gt-10");
+                    }
+                    self.head = Some(h);
+                }
+            }
+            match (&before[h as usize], &now) {
+                (Err(VerifGetPoolError::CandidatesNotValidated), Ok(_)) => obs.label("candidates-promoted"),
+                (Err(VerifGetPoolError::CandidatesNotValidated), Err(VerifGetPoolError::HeightNotTracked)) => obs.label("candidates-timeout"),
+                (Err(VerifGetPoolError::CandidatesNotValidated), Err(VerifGetPoolError::HeightTooOld)) => obs.label("candidates-evicted"),
+                (Ok(_), Err(VerifGetPoolError::HeightTooOld)) => obs.label("validated-pool-evicted"),
+                _ => {}
+            }
+        }
+        // harness self-check (diagnostic hook)
+        let th = self.real.subjective_head();
+        obs.check(th == self.head, "C40:harness-head-desync", || {
+            format!("step {step}: observer's newest validated height {:?} but tracker subjective_head {th:?}", self.head)
+        })?;
+
+        // ---- B: blocking obligations at the quiescent point
+        for (i, anns) in self.ann.iter().enumerate() {
+            if self.blocked.contains(&i) {
+                continue;
+            }
+            for (h, v) in anns {
+                if v.len() >= 2 {
+                    let sig = if self.dup_after_validation.contains(&(i, *h)) {
+                        "C40:duplicate-after-validation-not-blocked"
+                    } else {
+                        "C40:duplicate-announcement-not-blocked"
+                    };
+                    obs.fail(
+                        sig,
+                        format!(
+                            "step {step}: peer #{i} announced {} times for height {h} (hashes {:?}) since its last removal and never appeared in a BlockPeers event; get_pool({h}) = {:?}",
+                            v.len(),
+                            v.iter().map(|x| hex::encode(&x[..4])).collect::<Vec<_>>(),
+                            self.real.get_pool(*h)
+                        ),
+                    )?;
+                }
+                if self.real.get_pool(*h).is_ok() {
+                    if let Some(hh) = self.stored.get(h) {
+                        if v.iter().any(|x| x != hh) {
+                            obs.fail(
+                                "C40:wrong-hash-announcer-not-blocked",
+                                format!(
+                                    "step {step}: height {h} is validated (stored data hash {}), peer #{i} announced {:?} for it and never appeared in a BlockPeers event",
+                                    hex::encode(&hh[..4]),
+                                    v.iter().map(|x| hex::encode(&x[..4])).collect::<Vec<_>>()
+                                ),
+                            )?;
+                        }
+                    }
+                }
+            }
+        }
+        Ok(())
+    }
+
+    /// S and W, after every step. Returns whether some pool is currently served and a digest of all answers.
+    fn check_pools(&mut self, step: usize, what: &Step, obs: &mut Obs<'_>) -> Result<(bool, u64), Failure> {
+        let mut any_ok = false;
+        let mut view = 0xcbf29ce484222325u64;
+        let thr = self.threshold();
+        for h in 0..=self.max_h {
+            let stale = thr.is_some_and(|t| h <= t);
+            let got = self.real.get_pool(h);
+            view = view.wrapping_mul(0x100000001b3) ^ digest_of(&got);
+            match got {
+                Ok(ps) => {
+                    any_ok = true;
+                    obs.check(!stale, "C40:stale-height-has-pool", || {
+                        format!("step {step} after {what:?}: get_pool({h}) = Ok({} peers) although the newest validated height is {:?}", ps.len(), self.head)
+                    })?;
+                    let Some(hh) = self.stored.get(&h).copied() else {
+                        obs.fail("C40:pool-validated-without-header", format!("step {step} after {what:?}: get_pool({h}) is Ok but the store has no header at {h}"))?;
+                        continue;
+                    };
+                    if !ps.is_empty() {
+                        obs.label("pool-nonempty");
+                    }
+                    let mut seen = BTreeSet::new();
+                    for p in &ps {
+                        let Some(i) = self.idx(p) else {
+                            obs.fail("C40:pool-peer-did-not-announce-stored-hash", format!("step {step}: get_pool({h}) offers unknown peer {p}"))?;
+                            continue;
+                        };
+                        if !seen.insert(i) {
+                            obs.label("peer-listed-twice-in-pool");
+                        }
+                        let announced = self.ann[i].get(&h).is_some_and(|v| v.contains(&hh));
+                        obs.check(announced, "C40:pool-peer-did-not-announce-stored-hash", || {
+                            format!(
+                                "step {step} after {what:?}: get_pool({h}) offers peer #{i}, whose announcements for {h} since its last removal are {:?}; stored data hash {}",
+                                self.ann[i].get(&h).map(|v| v.iter().map(|x| hex::encode(&x[..4])).collect::<Vec<_>>()),
+                                hex::encode(&hh[..4])
+                            )
+                        })?;
+                        obs.check(!self.blocked.contains(&i), "C40:blocked-peer-in-pool", || {
+                            format!("step {step} after {what:?}: get_pool({h}) offers peer #{i}, which was blocked earlier")
+                        })?;
+                    }
+                    if ps.len() >= 2 {
+                        obs.label("pool-two-or-more-peers");
+                    }
+                }
+                Err(e) => {
+                    if stale {
+                        obs.label("stale-height-error");
+                        obs.check(e == VerifGetPoolError::HeightTooOld, "C40:stale-height-pool-not-dropped", || {
+                            format!("step {step} after {what:?}: get_pool({h}) = {e:?} with newest validated height {:?}: a pool still exists", self.head)
+                        })?;
+                        if self.ever_ok.contains(&h) {
+                            obs.label("stale-height-was-served-before");
+                        }
+                    }
+                }
+            }
+        }
+        Ok((any_ok, view ^ self.blocked.len() as u64))
+    }
+}
+
+async fn sim(case: &Case, obs: &mut Obs<'_>) -> Result<(), Failure> {
+    let chain = chain_for(case.seed % 8);
+    // generator self-check: the property's stated scope
+    {
+        let set: BTreeSet<&[u8; 32]> = chain.hashes.iter().collect();
+        if set.len() != chain.hashes.len() {
+            return Err(Failure::new("gen", "generated chain has equal data hashes"));
+        }
+    }
+    let n = case.n_peers.clamp(1, MAX_PEERS) as usize;
+    let ids: Vec<PeerId> = (0..n as u8).map(|i| peer_id(case.seed, i)).collect();
+    let store = Arc::new(InMemoryStore::new());
+    let mut stored = BTreeMap::new();
+    let init = (case.init as usize).min(CHAIN_LEN);
+    if init > 0 {
+        store
+            .insert(chain.headers[..init].to_vec())
+            .await
+            .map_err(|e| Failure::new("gen", format!("initial insert failed: {e}")))?;
+        for h in 1..=init as u64 {
+            stored.insert(h, chain.hashes[(h - 1) as usize]);
+        }
+    }
+    let real = PoolTrackerSim::new(store.clone());
+    let mut s = Sim {
+        chain: &chain,
+        ids,
+        store,
+        real,
+        stored,
+        head: None,
+        ann: vec![BTreeMap::new(); n],
+        dup_after_validation: BTreeSet::new(),
+        blocked: BTreeSet::new(),
+        ever_ok: BTreeSet::new(),
+        max_h: CHAIN_LEN as u64 + 4,
+    };
+    let mut rolling = digest_bytes(&case.seed.to_le_bytes()) ^ case.init as u64;
+    let last = Step::Settle;
+    let mut last_view = 0u64;
+    let steps = case.steps.iter().chain(std::iter::once(&last));
+    for (k, st) in steps.enumerate() {
+        let pi = |p: u8| (p as usize).min(n - 1);
+        let store_head = s.stored.keys().next_back().copied().unwrap_or(0);
+        let mut settled = false;
+        match st {
+            Step::NotifyNear { p, dh, hash } => {
+                let h = (store_head as i64 + *dh as i64).max(0) as u64;
+                let hv = s.hash_for(case.seed, h, hash);
+                s.notify(k, pi(*p), h, hv, obs)?;
+            }
+            Step::NotifyAbs { p, h, hash } => {
+                let hv = s.hash_for(case.seed, *h as u64, hash);
+                s.notify(k, pi(*p), *h as u64, hv, obs)?;
+            }
+            Step::InsertNext { len } => s.insert(store_head + 1, *len as u64, obs).await,
+            Step::InsertJump { gap, len } => s.insert(store_head + 1 + *gap as u64, *len as u64, obs).await,
+            Step::InsertBelowTop { len } => {
+                // lowest height of the highest stored range
+                let mut lo = store_head;
+                while lo > 1 && s.stored.contains_key(&(lo - 1)) {
+                    lo -= 1;
+                }
+                let len = (*len as u64).min(lo.saturating_sub(1));
+                if len > 0 {
+                    s.insert(lo - len, len, obs).await;
+                }
+            }
+            Step::InsertAt { from, len } => s.insert(*from as u64, *len as u64, obs).await,
+            Step::RemovePeer { p } => {
+                let i = pi(*p);
+                let in_pool = (0..=s.max_h).any(|h| s.real.get_pool(h).is_ok_and(|ps| ps.contains(&s.ids[i])));
+                s.real.remove_peer(&s.ids[i]);
+                s.ann[i].clear();
+                if in_pool {
+                    obs.label("peer-removed-from-served-pool");
+                }
+            }
+            Step::Advance { secs } => {
+                tokio::time::advance(Duration::from_secs(*secs as u64)).await;
+            }
+            Step::Settle => {
+                s.settle(k, obs).await?;
+                settled = true;
+            }
+        }
+        if case.auto_settle && !settled {
+            s.settle(k, obs).await?;
+        }
+        let (any_ok, view) = s.check_pools(k, st, obs)?;
+        rolling = rolling.wrapping_mul(0x100000001b3) ^ digest_of(st);
+        let changed = view != last_view;
+        last_view = view;
+        obs.eval((any_ok && changed).then_some(rolling));
+    }
+    Ok(())
+}
+
+fn run_case(case: &Case, obs: &mut Obs) -> Result<(), Failure> {
+    let rt = tokio::runtime::Builder::new_current_thread()
+        .enable_time()
+        .start_paused(true)
+        .build()
+        .map_err(|e| Failure::new("gen", format!("runtime: {e}")))?;
+    rt.block_on(sim(case, obs))
+}
+
+// ---------------------------------------------------------------- equal-hash observation
+
+#[derive(Clone, Debug, Serialize, Deserialize)]
+pub struct EqualCase {
+    /// heights a < b with the same data hash
+    pub a: u8,
+    pub b: u8,
+}
+
+/// Outside the stated scope: two heights share a data hash. Both pools get validated, then the head
+/// moves so that only `a` is evicted. Records (never fails) whether `get_pool(b)` panics.
+fn equal_hash_observation(c: &EqualCase, obs: &mut Obs) -> Result<(), Failure> {
+    obs.eval(None);
+    let (a, b) = (c.a as u64, c.b as u64);
+    let chain = build_chain_data(0xE0 + a + (b << 8), Some((a as usize - 1, b as usize - 1)));
+    if chain.hashes[a as usize - 1] != chain.hashes[b as usize - 1] {
+        return Err(Failure::new("gen", "equal-hash chain does not have equal hashes"));
+    }
+    let rt = tokio::runtime::Builder::new_current_thread().enable_time().start_paused(true).build().unwrap();
+    let outcome: Result<Result<usize, String>, String> = rt.block_on(async {
+        let store = Arc::new(InMemoryStore::new());
+        store.insert(chain.headers[..a as usize - 1].to_vec()).await.map_err(|e| e.to_string())?;
+        let mut real = PoolTrackerSim::new(store.clone());
+        let drain = |real: &mut PoolTrackerSim| {
+            let waker = futures::task::noop_waker();
+            let mut cx = std::task::Context::from_waker(&waker);
+            for _ in 0..10_000 {
+                if real.poll(&mut cx).is_pending() {
+                    break;
+                }
+            }
+        };
+        drain(&mut real);
+        let p0 = peer_id(1, 0);
+        let p1 = peer_id(1, 1);
+        let p2 = peer_id(1, 2);
+        real.notify(p0, a, chain.hashes[a as usize - 1]);
+        real.notify(p1, b, chain.hashes[b as usize - 1]);
+        store.insert(chain.headers[a as usize - 1..b as usize].to_vec()).await.map_err(|e| e.to_string())?;
+        drain(&mut real);
+        // move the validated head to a + 10: evicts a (and only a, when b > a)
+        let top = a + WINDOW;
+        store.insert(chain.headers[b as usize..top as usize].to_vec()).await.map_err(|e| e.to_string())?;
+        real.notify(p2, top, chain.hashes[top as usize - 1]);
+        drain(&mut real);
+        Ok(lv_common::no_panic(|| real.get_pool(b).map(|v| v.len()).unwrap_or(usize::MAX)))
+    });
+    match outcome {
+        Ok(Ok(n)) => {
+            obs.label("equal-hash-get-pool-returned");
+            obs.note(format!("equal data hashes at heights {a} and {b} (outside the stated scope): after evicting {a}, get_pool({b}) returned {n} peers (usize::MAX = error)"));
+        }
+        Ok(Err(rec)) => {
+            obs.label("equal-hash-get-pool-panicked");
+            obs.note(format!(
+                "equal data hashes at heights {a} and {b} (outside the stated scope): after {a} is evicted, get_pool({b}) panics: {rec}"
+            ));
+        }
+        Err(e) => return Err(Failure::new("gen", format!("equal-hash scenario could not be set up: {e}"))),
+    }
+    Ok(())
+}
+
+pub fn run(ctx: &mut Ctx) {
+    ctx.assume("scope as stated: distinct non-empty data hashes per height (self-checked per chain); headers reach the store only through the validating Store::insert; a blocked peer's notifications no longer arrive (the swarm blacklists peers named in BlockPeers), so the history interpreter drops them");
+    ctx.assume("notifications are delivered through EdsNotification::deserialize_and_validate exactly as shrex::Behaviour does; the 120 s pool-validation timeout runs on tokio's paused clock; 'newest validated height' = store head when the tracker first sees a non-empty store, then the highest height whose pool was ever served (cross-checked against the tracker's subjective_head through a diagnostic hook)");
+    ctx.assume("announcements made before a peer's removal (disconnect) or for heights the tracker ignores (no head yet / at least 10 below the newest validated height) carry no obligation");
+    ctx.essential(&[
+        "pool-nonempty",
+        "pool-two-or-more-peers",
+        "wrong-hash-announcer-blocked",
+        "duplicate-announcer-blocked",
+        "stale-height-error",
+        "validated-pool-evicted",
+        "notify-after-validation-right",
+        "notify-after-validation-wrong",
+        "notify-before-header",
+        "candidates-promoted",
+        "candidates-timeout",
+        "peer-removed-from-served-pool",
+        "validated-head-jump-gt-10",
+        "notify-ignored-stale",
+    ]);
+    let cases = ctx.tier.pick(50_000, 400_000);
+    let max_steps = ctx.tier.pick(60, 100);
+    ctx.proptest(
+        "histories",
+        "histories of 5..60 (thorough 100) steps over <= 6 peers and a validated chain of 36 heights with pairwise distinct non-empty data hashes: notifications (right hash / hash nobody has / right hash of another height; relative to the store head or absolute, incl. height 0 and heights beyond the chain), header insertions (next, head jump over a gap of up to 13, back-fill, arbitrary), peer removal, clock advances up to 400 s (120 s validation timeout), polls to quiescence. One evaluation per step (S, W; B at quiescent points). Non-trivial = evaluation at which at least one height serves a pool and the step changed the observable state (some get_pool answer or the set of blocked peers); distinct by rolling digest of the step prefix",
+        cases,
+        move || case_strategy(max_steps),
+        run_case,
+    );
+    let eq: Vec<EqualCase> = vec![EqualCase { a: 3, b: 4 }, EqualCase { a: 3, b: 7 }, EqualCase { a: 5, b: 12 }];
+    ctx.enumerate(
+        "equal-hash-observation",
+        "OBSERVATION ONLY (outside the stated scope, cannot fail): two heights a<b with equal data hashes, both validated, then a evicted; records whether get_pool(b) panics. Never non-trivial",
+        false,
+        eq,
+        equal_hash_observation,
+    );
 }
